@@ -120,14 +120,34 @@ def make_case(seed, i):
             files[man] = text
             what = "import cycle pkg -> %s -> pkg" % imp.dirname
         elif kind == "ns_conflict":
+            # (the second directory's name: a different one, or the same one in another letter case)
+            copy_name = imp.dirname + "_copy" if r2.chance(0.5) else imp.dirname.capitalize()
             for p, t in list(files.items()):
                 if p.startswith("/w/%s/" % imp.dirname):
-                    files[p.replace("/w/%s/" % imp.dirname, "/w/%s_copy/" % imp.dirname)] = t
-            files["/w/pkg/_package.yml"] = files["/w/pkg/_package.yml"].replace("imports:\n", "imports:\n  - ../%s_copy\n" % imp.dirname, 1)
+                    files[p.replace("/w/%s/" % imp.dirname, "/w/%s/" % copy_name)] = t
+            files["/w/pkg/_package.yml"] = files["/w/pkg/_package.yml"].replace("imports:\n", "imports:\n  - ../%s\n" % copy_name, 1)
             what = "namespace %s claimed by two directories" % imp.namespace
         else:
             files["/w/pkg/_package.yml"] = files["/w/pkg/_package.yml"].replace("imports:\n", "imports:\n  - ../no_such_dir\n", 1)
             what = "import of a missing directory"
+    # directory names that differ from another package directory's in letter case only (pkg / Pkg, imp_core / Imp_core): on a
+    # case-sensitive file system they are different directories
+    cv = rng.fork("casevariant")
+    if files is not None and cv.chance(0.4):
+        changed = sorted({p.rsplit("/", 1)[0] for p in set(files) | set(valid_files) if files.get(p) != valid_files.get(p)})
+        vdirs = [d for d in changed if d.startswith("/w/pkg_v") and d.count("/") == 2]
+        if vdirs and "/w/Pkg/_package.yml" not in valid_files:
+            old_dir = vdirs[0]
+
+            def mv(fs):
+                out = {}
+                for p, c in fs.items():
+                    q = "/w/Pkg" + p[len(old_dir):] if (p == old_dir or p.startswith(old_dir + "/")) else p
+                    out[q] = c.replace("../" + old_dir.rsplit("/", 1)[1], "../Pkg") if p.endswith("/_package.yml") else c
+                return out
+            valid_files, files = mv(valid_files), mv(files)
+            what = (what or "") + " [the version lives in ../Pkg, next to the package's own directory pkg]"
+            desc["case_variant_directory"] = "Pkg"
     desc["invalidation"] = what
     # what else package directories hold: hidden files, documentation, editor settings (the same in both trees)
     cl = rng.fork("clutter")
